@@ -446,6 +446,13 @@ func (k *Checker) checkConfAppend(n *Node, pre, post *raft.VerifState, ctx *call
 			if o == nil || (o.GetType() != pb.EntryConfChange && o.GetType() != pb.EntryConfChangeV2) {
 				continue
 			}
+			// "may still be unapplied": judged by what the application has really
+			// applied (its state machine's index), which is never behind what raft
+			// has been told (a seeded change made raft believe more than that)
+			if appApplied := n.app.cur.Index; j > appApplied {
+				k.report("C10", "mc.one_pending", n, fmt.Sprintf("leader placed a conf change at %d while the conf change at %d is unapplied (the application has applied up to %d, raft says %d)", i, j, appApplied, post.Applied), "")
+				return
+			}
 			if j > pre.Applied && j > post.Applied {
 				k.report("C10", "mc.one_pending", n, fmt.Sprintf("leader placed a conf change at %d while the conf change at %d is unapplied (applied %d)", i, j, post.Applied), "")
 				return
